@@ -54,6 +54,9 @@ func checkC01(c *Check) {
 		// a refresh answer is accepted as a refresh only when it says so: the token_type test of the refresh validator is
 		// decisive (C11.R3) — an error document answered with status 200 must not keep an expired session alive
 		importObls(c, "C11", checkC11, "C01.R2", func(o *Obligation) bool { return strings.Contains(o.Key, "token-type-decisive") })
+		importObls(c, "C10", checkC10, "C01.R6", func(o *Obligation) bool {
+			return strings.HasPrefix(o.Key, "C10.R4/ctor-field/") || strings.HasPrefix(o.Key, "C10.R4/timeout-written-outside-constructor")
+		})
 	}
 	c01R5(c, R)
 	c01R6(c)
